@@ -57,6 +57,8 @@ func (vc *VC) execCallCommon(st *State, call *ssa.CallCommon, instr ssa.Instruct
 	resTuple := call.Signature().Results()
 	// ---- builtins ----
 	if b, ok := call.Value.(*ssa.Builtin); ok {
+		st.callCount[b.Name()]++
+		vc.siteHooks(st, b.Name(), instr, true)
 		return vc.execBuiltin(st, b, call, instr)
 	}
 	var ci calleeInfo
@@ -290,6 +292,12 @@ func (vc *VC) applyContract(st *State, ci *calleeInfo, instr ssa.Instruction, si
 	}
 	st.callCount[ci.key]++
 	vc.siteGhost(st, ci, instr, true)
+	for _, gt := range c.GhostTags {
+		pe := vc.calleeEnv(ci, st.heap, st.heap)
+		if tv, ok := pe.vars[gt]; ok && tv.S.Sort == "Slice" {
+			vc.retag(st, tv.T)
+		}
+	}
 	pre := st.heap.clone()
 	// requires
 	env := vc.calleeEnv(ci, st.heap, st.heap)
@@ -326,13 +334,22 @@ func (vc *VC) applyContract(st *State, ci *calleeInfo, instr ssa.Instruction, si
 			}
 		}
 	}
-	if c.Pure && res.Len() == 1 && len(c.Ensures) == 0 {
-		// uninterpreted pure function of its arguments
+	if c.Pure && res.Len() == 1 && !hasDefiningEnsures(c) && ci.recv != nil {
+		// pure method without defining equation: an uninterpreted function of receiver and arguments
+		rt := res.At(0).Type()
+		fn := "pm_" + sanitize(shortKey(c.Key))
+		sorts := []Sort{ci.recv.S.Sort}
+		ts := []Term{ci.recv.T}
+		for _, a := range ci.args {
+			sorts = append(sorts, a.S.Sort)
+			ts = append(ts, a.T)
+		}
+		vc.d.declFun(fn, sorts, sortOf(rt))
+		st.assume = append(st.assume, eq(out[0].T, app(fn, ts...)))
 	}
 	for _, en := range c.Ensures {
 		st.assume = append(st.assume, vc.trClause(post, en))
 	}
-	vc.siteGhost(st, ci, instr, false)
 	switch len(out) {
 	case 0:
 		return Val{}
@@ -340,6 +357,25 @@ func (vc *VC) applyContract(st *State, ci *calleeInfo, instr ssa.Instruction, si
 		return out[0]
 	}
 	return Val{Tuple: out}
+}
+
+// retag gives the elements of a slice the ghost tags 0..len-1 (ghost state: always permitted).
+func (vc *VC) retag(st *State, s Term) {
+	tags := vc.hget(st.heap, "Tags", tagsSort)
+	nt := vc.d.freshConst("retag", "(Array Int Int)")
+	st.assume = append(st.assume, fmt.Sprintf("(forall ((k Int)) (! (=> (and (<= 0 k) (< k (slen %s))) (= (select %s (idx %s k)) k)) :pattern ((idx %s k))))", s, nt, s, s))
+	vc.setHeap(st, "Tags", tagsSort, app("store", tags, app("sid", s), nt))
+}
+
+func hasDefiningEnsures(c *Contract) bool {
+	for _, cl := range c.Ensures {
+		if be, ok := cl.Expr.(*ast.BinaryExpr); ok && be.Op == token.EQL {
+			if rid, ok := be.X.(*ast.Ident); ok && (rid.Name == "result" || rid.Name == "result0") {
+				return true
+			}
+		}
+	}
+	return false
 }
 
 func unionProps(a, b []string) []string {
@@ -372,6 +408,8 @@ func (vc *VC) havocAssigns(st *State, env *Env, c *Contract, pre *Heap) {
 			}
 			vc.havocHeap(st, n, vc.arrays[n])
 		}
+		vc.epochs++
+		st.heap.epoch = fmt.Sprintf("e%d", vc.epochs)
 		return
 	}
 	penv := *env
@@ -495,7 +533,7 @@ func (vc *VC) frameCheck(st *State, env *Env, c *Contract, site string) {
 	}
 	sort.Strings(names)
 	for _, n := range names {
-		if n == "top" || whole[n] || strings.HasPrefix(n, "IterVisited_") {
+		if n == "top" || n == "Tags" || whole[n] || strings.HasPrefix(n, "IterVisited_") {
 			continue
 		}
 		s := vc.arrays[n]
@@ -505,8 +543,8 @@ func (vc *VC) frameCheck(st *State, env *Env, c *Contract, site string) {
 			continue
 		}
 		var goal Term
-		if strings.HasPrefix(s, "(Array Int ") && !strings.HasPrefix(n, "GV_") && !strings.HasPrefix(n, "Glob_") {
-			conds := []Term{app("<=", "fx", vc.d.declConst("top", "Int"))}
+		if vc.refKeyed(n) {
+			conds := []Term{app("<", "0", "fx"), app("<=", "fx", vc.d.declConst("top", "Int"))}
 			for _, a := range allowed[n] {
 				conds = append(conds, not(eq("fx", a)))
 			}
@@ -576,22 +614,35 @@ func (vc *VC) execAppend(st *State, call *ssa.CallCommon, instr ssa.Instruction)
 	contents := vc.d.freshConst("appended", fmt.Sprintf("(Array Int %s)", es))
 	ls, lt := app("slen", s.T), app("slen", t.T)
 	// old part
-	st.assume = append(st.assume, fmt.Sprintf("(forall ((i Int)) (! (=> (and (<= 0 i) (< i %s)) (= (select %s i) (select (select %s (sid %s)) (+ (soff %s) i)))) :pattern ((select %s i))))",
+	st.assume = append(st.assume, fmt.Sprintf("(forall ((i Int)) (! (=> (and (<= 0 i) (< i %s)) (= (select %s i) (select (select %s (sid %s)) (idx %s i)))) :pattern ((select %s i))))",
 		ls, contents, el, s.T, s.T, contents))
 	// appended part
 	if n, ok := vc.staticLen(call.Args[1]); ok && n <= 4 {
 		for i := 0; i < n; i++ {
 			st.assume = append(st.assume, eq(app("select", contents, app("+", ls, intLit(int64(i)))),
-				app("select", app("select", el, app("sid", t.T)), app("+", app("soff", t.T), intLit(int64(i))))))
+				app("select", app("select", el, app("sid", t.T)), app("idx", t.T, intLit(int64(i))))))
 		}
 	} else {
-		st.assume = append(st.assume, fmt.Sprintf("(forall ((i Int)) (! (=> (and (<= 0 i) (< i %s)) (= (select %s (+ %s i)) (select (select %s (sid %s)) (+ (soff %s) i)))) :pattern ((select %s (+ %s i)))))",
-			lt, contents, ls, el, t.T, t.T, contents, ls))
 		// second trigger form: index-based
-		st.assume = append(st.assume, fmt.Sprintf("(forall ((j Int)) (! (=> (and (<= %s j) (< j (+ %s %s))) (= (select %s j) (select (select %s (sid %s)) (+ (soff %s) (- j %s))))) :pattern ((select %s j))))",
+		st.assume = append(st.assume, fmt.Sprintf("(forall ((j Int)) (! (=> (and (<= %s j) (< j (+ %s %s))) (= (select %s j) (select (select %s (sid %s)) (idx %s (- j %s))))) :pattern ((select %s j))))",
 			ls, ls, lt, contents, el, t.T, t.T, ls, contents))
 	}
 	vc.setHeap(st, elemsArr(es), elemsSort(es), app("store", el, a, contents))
+	// ghost slot tags travel with the elements
+	tags := vc.hget(st.heap, "Tags", tagsSort)
+	tcont := vc.d.freshConst("appended_tags", "(Array Int Int)")
+	st.assume = append(st.assume, fmt.Sprintf("(forall ((i Int)) (! (=> (and (<= 0 i) (< i %s)) (= (select %s i) (select (select %s (sid %s)) (idx %s i)))) :pattern ((select %s i))))",
+		ls, tcont, tags, s.T, s.T, tcont))
+	if n, ok := vc.staticLen(call.Args[1]); ok && n <= 4 {
+		for i := 0; i < n; i++ {
+			st.assume = append(st.assume, eq(app("select", tcont, app("+", ls, intLit(int64(i)))),
+				app("select", app("select", tags, app("sid", t.T)), app("idx", t.T, intLit(int64(i))))))
+		}
+	} else {
+		st.assume = append(st.assume, fmt.Sprintf("(forall ((j Int)) (! (=> (and (<= %s j) (< j (+ %s %s))) (= (select %s j) (select (select %s (sid %s)) (idx %s (- j %s))))) :pattern ((select %s j))))",
+			ls, ls, lt, tcont, tags, t.T, t.T, ls, tcont))
+	}
+	vc.setHeap(st, "Tags", tagsSort, app("store", tags, a, tcont))
 	res := vc.d.freshConst("app", "Slice")
 	st.assume = append(st.assume, eq(res, app("mk_slice", a, "0", app("+", ls, lt))))
 	return Val{T: res, Typ: rt}
@@ -663,6 +714,10 @@ func (vc *VC) execDynCall(st *State, call *ssa.CallCommon, instr ssa.Instruction
 // pureFuncAxiom: when a function constant or closure with a pure defining contract is created, relate applications
 // of the value to the definition.
 func (vc *VC) pureFuncAxiom(st *State, fn *ssa.Function, fval Term, binds []Term) {
+	sink := func(t Term) { st.assume = append(st.assume, t) }
+	if len(fn.FreeVars) == 0 {
+		sink = func(t Term) { vc.d.axiom(t) }
+	}
 	key := funcKey(fn)
 	c := vc.lookupContract(key)
 	if c == nil || !c.Pure {
@@ -679,9 +734,6 @@ func (vc *VC) pureFuncAxiom(st *State, fn *ssa.Function, fval Term, binds []Term
 				def = be.Y
 			}
 		}
-	}
-	if def == nil {
-		return
 	}
 	e := &Env{vc: vc, pkg: c.Pkg, vars: map[string]TV{}, heap: st.heap, old: st.heap, tparams: instTypeParams(fn)}
 	if len(e.tparams) == 0 {
@@ -713,6 +765,22 @@ func (vc *VC) pureFuncAxiom(st *State, fn *ssa.Function, fval Term, binds []Term
 			return TV{}, false
 		}
 	}
+	// precondition predicate of the value
+	{
+		pre := []Term{}
+		for _, r := range c.Requires {
+			pre = append(pre, vc.trClause(e, r))
+		}
+		pp := app(vc.applyPreFun(sig), ts...)
+		if len(bound) == 0 {
+			sink(eq(pp, and(pre...)))
+		} else {
+			sink(fmt.Sprintf("(forall (%s) (! (= %s %s) :pattern (%s)))", strings.Join(bound, " "), pp, and(pre...), pp))
+		}
+	}
+	if def == nil {
+		return
+	}
 	body := e.tr(def)
 	ap := app(vc.applyFun(sig, nil), ts...)
 	var ax Term
@@ -721,7 +789,7 @@ func (vc *VC) pureFuncAxiom(st *State, fn *ssa.Function, fval Term, binds []Term
 	} else {
 		ax = fmt.Sprintf("(forall (%s) (! (= %s %s) :pattern (%s)))", strings.Join(bound, " "), ap, body.T, ap)
 	}
-	st.assume = append(st.assume, ax)
+	sink(ax)
 	vc.usedTrusted["pure-definition "+shortFuncKey(key)+" (proved on its body)"] = true
 }
 
@@ -812,14 +880,42 @@ func (vc *VC) ghostAssign(st *State, env *Env, target, value ast.Expr) {
 
 // siteGhost runs "ghost before|after call <callee>" statements and site assertions of the function under verification.
 func (vc *VC) siteGhost(st *State, ci *calleeInfo, instr ssa.Instruction, before bool) {
+	vc.siteHooks(st, ci.key, instr, before)
+}
+
+// calleeKeyOf names the callee of a call instruction for site hooks ("append" etc. for builtins).
+func (vc *VC) calleeKeyOf(st *State, cc *ssa.CallCommon) string {
+	if cc.IsInvoke() {
+		return ifaceMethodKey(cc.Method)
+	}
+	switch v := cc.Value.(type) {
+	case *ssa.Builtin:
+		return v.Name()
+	case *ssa.Function:
+		return funcKey(v)
+	case *ssa.MakeClosure:
+		return funcKey(v.Fn.(*ssa.Function))
+	}
+	if x, ok := st.vals[cc.Value]; ok {
+		if x.Fn != nil {
+			return funcKey(x.Fn)
+		}
+		if x.Closure != nil {
+			return funcKey(x.Closure.Fn.(*ssa.Function))
+		}
+	}
+	return "dynamic:" + cc.Value.Name()
+}
+
+func (vc *VC) siteHooks(st *State, key string, instr ssa.Instruction, before bool) {
 	if vc.contract == nil {
 		return
 	}
 	match := func(pat string, ord int) bool {
-		if !strings.Contains(ci.key, pat) {
+		if !strings.Contains(key, pat) {
 			return false
 		}
-		return ord == 0 || st.callCount[ci.key] == ord
+		return ord == 0 || vc.staticOrdinal(instr) == ord
 	}
 	for _, a := range vc.contract.Asserts {
 		if a.Before != before || !match(a.Callee, a.Ordinal) {
@@ -860,6 +956,7 @@ func (vc *VC) modOfCall(st *State, call ssa.CallInstruction, inLoop func(ssa.Val
 		if cc.Value.Name() == "append" {
 			es := sortOf(elemTypeOf(cc.Args[0].Type()))
 			add(elemsArr(es), elemsSort(es), "", true, false)
+			add("Tags", tagsSort, "", true, false)
 		}
 		if cc.Value.Name() == "delete" {
 			mt := types.Unalias(cc.Args[0].Type()).Underlying().(*types.Map)
@@ -1000,4 +1097,46 @@ func (vc *VC) modOfCall(st *State, call ssa.CallInstruction, inLoop func(ssa.Val
 
 func (vc *VC) execGo(st *State, g *ssa.Go) {
 	vc.unsupported(g, "go statement (fork/join rule not enabled for this function)")
+}
+
+// staticOrdinal: position of a call among the calls to the same callee in this function, in source order.
+func (vc *VC) staticOrdinal(instr ssa.Instruction) int {
+	if vc.callOrd == nil {
+		vc.callOrd = map[ssa.Instruction]int{}
+		type item struct {
+			ins ssa.Instruction
+			key string
+		}
+		var items []item
+		for _, b := range vc.fn.Blocks {
+			for _, ins := range b.Instrs {
+				if ci, ok := ins.(ssa.CallInstruction); ok {
+					cc := ci.Common()
+					key := ""
+					if cc.IsInvoke() {
+						key = ifaceMethodKey(cc.Method)
+					} else {
+						switch v := cc.Value.(type) {
+						case *ssa.Builtin:
+							key = v.Name()
+						case *ssa.Function:
+							key = funcKey(v)
+						case *ssa.MakeClosure:
+							key = funcKey(v.Fn.(*ssa.Function))
+						default:
+							key = "dynamic:" + cc.Value.Name()
+						}
+					}
+					items = append(items, item{ins, key})
+				}
+			}
+		}
+		sort.SliceStable(items, func(i, j int) bool { return items[i].ins.Pos() < items[j].ins.Pos() })
+		count := map[string]int{}
+		for _, it := range items {
+			count[it.key]++
+			vc.callOrd[it.ins] = count[it.key]
+		}
+	}
+	return vc.callOrd[instr]
 }
